@@ -1,7 +1,8 @@
 #!/bin/sh
 # runs every hand-made mutant against the quick check of the property named in its file name
 # (cNN-*.patch -> CNN) and writes mutants/RESULTS.md
-cd /verif || exit 2
+# VERIF_ROOT / REPO_ROOT (default /verif, /repo) let the matrix run in an isolated copy: see tools/snapshot.sh
+cd "${VERIF_ROOT:-/verif}" || exit 2
 out=mutants/RESULTS.md
 echo "# Kill matrix of the hand-made mutants (tools/kill_matrix.sh, quick tier)" > $out
 echo >> $out
